@@ -136,11 +136,26 @@ func runC28(op string) string {
 	era := head[1]
 	// "+nc1" / "+nc2": the body is re-encoded non-canonically (map header in its 1- / 2-byte
 	// length form) before anything is hashed or signed: the tx id is the hash of THOSE bytes
+	// "+inv": is_valid = false (Alonzo and later)
 	nc := ""
-	if i := strings.Index(era, "+"); i >= 0 {
-		era, nc = era[:i], era[i+1:]
-		if nc != "nc1" && nc != "nc2" {
-			return "bad-op"
+	inv := false
+	if parts := strings.Split(era, "+"); len(parts) > 1 {
+		era = parts[0]
+		for _, m := range parts[1:] {
+			switch m {
+			case "nc1", "nc2":
+				if nc != "" {
+					return "bad-op"
+				}
+				nc = m
+			case "inv":
+				if inv {
+					return "bad-op"
+				}
+				inv = true
+			default:
+				return "bad-op"
+			}
 		}
 	}
 	useed, ok := unhex(head[2])
@@ -167,11 +182,24 @@ func runC28(op string) string {
 	if !hasAlonzo && (len(collT) > 0 || len(reqT) > 0) {
 		return "bad-op"
 	}
+	if inv && (!hasAlonzo || era == "dijkstra") {
+		return "bad-op"
+	}
 	// ---- UTxOs and inputs
 	var utxos []common.Utxo
 	mkInputs := func(toks []string, base int) ([]any, bool) {
 		var list []any
 		for i, tk := range toks {
+			// "=j" (collateral only): the very UTxO that input j spends
+			if base == 2 && strings.HasPrefix(tk, "=") {
+				j, err := strconv.Atoi(tk[1:])
+				if err != nil || j < 0 || j >= len(insT) {
+					return nil, false
+				}
+				txh := blake2b.Sum256([]byte(fmt.Sprintf("utxo-%d-%d", 1, j)))
+				list = append(list, []any{txh[:], uint64(j)})
+				continue
+			}
 			o, ok := c28ParseOwner(tk)
 			if !ok {
 				return nil, false
@@ -347,7 +375,11 @@ func runC28(op string) string {
 	if hasAlonzo {
 		txBytes = append([]byte{0x84}, bodyBytes...)
 		txBytes = append(txBytes, witBytes...)
-		txBytes = append(txBytes, 0xf5, 0xf6)
+		if inv {
+			txBytes = append(txBytes, 0xf4, 0xf6)
+		} else {
+			txBytes = append(txBytes, 0xf5, 0xf6)
+		}
 	} else {
 		txBytes = append([]byte{0x83}, bodyBytes...)
 		txBytes = append(txBytes, witBytes...)
@@ -391,6 +423,9 @@ func runC28(op string) string {
 	}
 	if got := tx.Hash(); string(got.Bytes()) != string(txid[:]) {
 		return "txid-mismatch"
+	}
+	if tx.IsValid() == inv {
+		return "isvalid-mismatch"
 	}
 	ls := mockledger.NewLedgerStateBuilder().WithUtxos(utxos).Build()
 	res := [3]int{1, 1, 1}
@@ -461,6 +496,24 @@ func genC28(r *Rand, n int, tier string, emit func(string)) {
 					o = owner{fmt.Sprintf("K%d", k), k, 'K', 0, 0}
 				}
 				coll = append(coll, o)
+			}
+		}
+		// collateral that is also spent: the same UTxO in both sets, whatever locks it
+		overlap := map[int]int{} // collateral position -> input index
+		if hasAlonzo && len(ins) > 0 && r.Chance(1, 3) {
+			if len(coll) == 0 || r.Chance(1, 2) {
+				coll = append(coll, owner{})
+			}
+			for cj := range coll {
+				if cj == len(coll)-1 || r.Chance(1, 3) {
+					ij := r.Intn(len(ins))
+					if r.Chance(1, 3) { // a script-locked UTxO offered as collateral and spent
+						ins[ij] = owner{fmt.Sprintf("S%d", r.Intn(3)), 0, 'S', 0, 0}
+					}
+					overlap[cj] = ij
+					coll[cj] = ins[ij]
+					coll[cj].tok = fmt.Sprintf("=%d", ij)
+				}
 			}
 		}
 		var req []int
@@ -590,6 +643,10 @@ func genC28(r *Rand, n int, tier string, emit func(string)) {
 		}
 		if r.Chance(1, 4) {
 			era += Pick(r, "+nc1", "+nc2")
+		}
+		// every witness scenario also with is_valid = false
+		if hasAlonzo && !strings.HasPrefix(era, "dijkstra") && r.Chance(1, 3) {
+			era += "+inv"
 		}
 		emit(fmt.Sprintf("wit %s %s | in %s | coll %s | req %s | wd %s | vk %s | bw %s",
 			era, useeds[r.Intn(len(useeds))], toks(ins), toks(coll), strings.Join(reqS, " "), strings.Join(wd, " "),
